@@ -604,6 +604,27 @@ Qed.
 
 Lemma Inv_with_stop c s sp m st : Inv c s -> Inv c (with_stop s sp m st).
 Proof. intros [I1 I2 I3 I4 I5 I6 I7]. constructor; auto. Qed.
+Lemma Inv_with_crash c s b : Inv c s -> Inv c (with_crash s b).
+Proof. intros [I1 I2 I3 I4 I5 I6 I7]. constructor; auto. Qed.
+
+Lemma NoDup_filter {A} (f : A -> bool) l : NoDup l -> NoDup (filter f l).
+Proof.
+  induction 1 as [|x l Hx Hl IH]; cbn; [constructor|].
+  destruct (f x); [|exact IH]. constructor; [|exact IH]. intros Hin. apply filter_In in Hin. tauto.
+Qed.
+
+Lemma Inv_crash c s s' : Inv c s -> step c s ECrash = Ok s' -> Inv c s'.
+Proof.
+  intros [I1 I2 I3 I4 I5 I6 I7] H. cbn [step] in H. injection H as <-.
+  constructor; unfold tracked; cbn.
+  - constructor.
+  - intros p [[]|[]].
+  - intros p k [[]|[]].
+  - exact I4.
+  - intros p i [[]|[]].
+  - exact I6.
+  - intros p [].
+Qed.
 
 Lemma restored_fields p :
   p_id (restored p) = p_id p /\ p_sat (restored p) = p_sat p /\ p_manual (restored p) = p_manual p.
@@ -617,6 +638,7 @@ Qed.
 Lemma Inv_restart c s s' : Inv c s -> step c s ERestart = Ok s' -> Inv c s'.
 Proof.
   intros [I1 I2 I3 I4 I5 I6 I7] H. cbn [step] in H. injection H as <-.
+  apply Inv_with_crash.
   constructor; unfold tracked; cbn.
   - constructor.
   - intros p [[]|[]].
@@ -631,9 +653,40 @@ Proof.
     eapply I5; [left; eauto|exact Hi|now apply restored_needs_ok].
 Qed.
 
+Lemma Inv_restore_crash c s v s' :
+  Inv c s -> crash_mode s = true -> step c s (ERestore v) = Ok s' -> Inv c s'.
+Proof.
+  intros [I1 I2 I3 I4 I5 I6 I7] Hc H. cbn [step] in H. rewrite Hc in H.
+  destruct (find_inst (c_insts c) (v_id v)) as [i|] eqn:Ei; [|discriminate].
+  destruct (negb (Z.leb (c_icp c) (fst (v_id v)) && Z.leb (fst (v_id v)) (c_fcp c))) eqn:Eb; [discriminate|].
+  destruct (existsb (fun q => tid_eqb (p_id q) (v_id v)) (pool s)) eqn:Ep; [discriminate|].
+  destruct (negb (forallb (fun k => mem key_eqb k (done s)) (v_sat v))) eqn:Es; [discriminate|].
+  destruct (negb (forallb _ (v_outs v))); [discriminate|].
+  match type of H with (if ?b then _ else _) = _ => destruct b eqn:Eo; [discriminate|] end.
+  injection H as <-.
+  apply negb_false_iff in Eb, Es. apply andb_true_iff in Eb. destruct Eb as [Eb1 Eb2]. apply Z.leb_le in Eb1, Eb2.
+  rewrite forallb_forall in Es.
+  constructor; unfold tracked; cbn.
+  - rewrite map_app. cbn. apply NoDup_snoc; [auto|]. now apply existsb_id_false.
+  - intros q [Hq|Hq]; [|apply I2; now right].
+    apply in_app_or in Hq. destruct Hq as [Hq|[<-|[]]]; [apply I2; now left|]. cbn. split; [eauto|lia].
+  - intros q k [Hq|Hq] Hk; [|eapply I3; [right; eauto|auto]].
+    apply in_app_or in Hq. destruct Hq as [Hq|[<-|[]]]; [eapply I3; [left; eauto|auto]|].
+    cbn in Hk. apply mem_key_In. auto.
+  - exact I4.
+  - intros q i0 [Hq|Hq] Hi Hn; [|eapply I5; eauto; now right].
+    apply in_app_or in Hq. destruct Hq as [Hq|[<-|[]]]; [eapply I5; eauto; now left|].
+    cbn in Hi. rewrite Ei in Hi. injection Hi as <-. right.
+    unfold needs_ok in Hn. cbn in Hn. rewrite !orb_false_r in Hn. rewrite Hn in Eo. cbn in Eo.
+    now apply negb_false_iff in Eo.
+  - now apply NoDup_filter.
+  - exact I7.
+Qed.
+
 Lemma Inv_restore c s v s' : Inv c s -> step c s (ERestore v) = Ok s' -> Inv c s'.
 Proof.
-  intros [I1 I2 I3 I4 I5 I6 I7] H. cbn [step] in H.
+  destruct (crash_mode s) eqn:Hc; [intros I H; eapply Inv_restore_crash; eauto|].
+  intros [I1 I2 I3 I4 I5 I6 I7] H. cbn [step] in H. rewrite Hc in H.
   destruct (find_task (saved s) (v_id v)) as [p|] eqn:Ef; [|discriminate].
   destruct (negb (view_matches p v)); [discriminate|].
   destruct (existsb (fun q => tid_eqb (p_id q) (v_id v)) (pool s)) eqn:Ep; [discriminate|].
@@ -676,7 +729,11 @@ Proof.
   - cbn in H. injection H as <-. now apply Inv_with_hold.
   - eapply Inv_restart; eauto.
   - eapply Inv_restore; eauto.
-  - cbn in H. destruct (saved s); [injection H as <-; exact I|discriminate].
+  - cbn in H. destruct (crash_mode s); [injection H as <-; now apply Inv_with_crash|].
+    destruct (saved s); [injection H as <-; exact I|discriminate].
+  - eapply Inv_crash; eauto.
+  - cbn in H. destruct (crash_mode s); [|discriminate]. injection H as <-.
+    apply Inv_with_stop. now apply Inv_with_hold.
   - cbn in H. injection H as <-. now apply Inv_with_stop.
   - cbn in H. injection H as <-. apply Inv_limit. now apply Inv_with_stop.
   - cbn in H. injection H as <-. now apply Inv_with_stop.
